@@ -248,6 +248,14 @@ def run_harness(binary, comp, seed, tier, outdir, extra=(), timeout=1800):
     return json.load(open(os.path.join(outdir, "stats.json")))
 
 
+def _big_stack():
+    import resource
+    try:
+        resource.setrlimit(resource.RLIMIT_STACK, (resource.RLIM_INFINITY, resource.RLIM_INFINITY))
+    except Exception:
+        pass
+
+
 def run_driver(driver, comp, outdir, timeout=1800, cases="cases.txt", model="model.txt", shards=16):
     """Run the extracted model on the case file; the file is split into shards of whole CASE blocks
     (balanced by size) that run in parallel, outputs are concatenated in case order."""
@@ -276,7 +284,7 @@ def run_driver(driver, comp, outdir, timeout=1800, cases="cases.txt", model="mod
             for i in sorted(assign[k]):
                 f.writelines(blocks[i])
         so = open(os.path.join(outdir, f"shard{k}.out"), "w")
-        procs.append((subprocess.Popen([driver, comp, sp], stdout=so, stderr=subprocess.PIPE, text=True), so, k))
+        procs.append((subprocess.Popen([driver, comp, sp], stdout=so, stderr=subprocess.PIPE, text=True, preexec_fn=_big_stack), so, k))
     t0 = time.time()
     outs = {}
     for p, so, k in procs:
